@@ -535,6 +535,24 @@ class Exec:
         if len(node.generators) != 1:
             raise Unsupported("dict comprehension shape")
         g = node.generators[0]
+        if isinstance(g.iter, ast.Call) and isinstance(g.iter.func, ast.Name) and g.iter.func.id == "enumerate" and not g.ifs \
+                and isinstance(g.target, (ast.Tuple, ast.List)) and len(g.target.elts) == 2 \
+                and all(isinstance(e, ast.Name) for e in g.target.elts) \
+                and isinstance(node.key, ast.Name) and isinstance(node.value, ast.Name) \
+                and node.key.id == g.target.elts[1].id and node.value.id == g.target.elts[0].id:
+            # {k: i for (i, k) in enumerate(d)}: position of every key
+            d = lift(self.ev(g.iter.args[0], st))
+            rty = getattr(self.ctx.contract, "index_map_type", None)
+            if isinstance(d, V) and isinstance(d.ty, DictT) and rty is not None:
+                key = "idxmap_%s_%s" % (d.ty.name, rty.name)
+                if key not in _comp_cache:
+                    f = rec_function(key, d.ty.sort(), z3.IntSort(), rty.sort())
+                    dd = z3.Const(key + "_d", d.ty.sort())
+                    ii = z3.Int(key + "_i")
+                    add_definition(f, [dd, ii], z3.If(d.ty.is_nil(dd), rty.nil, rty.cons(d.ty.k(dd), ii, f(d.ty.tl(dd), ii + 1))))
+                    _comp_cache[key] = (f, rty)
+                return V(rty, _comp_cache[key][0](d.t, z3.IntVal(0)))
+            raise Unsupported("index-map comprehension needs contract.index_map_type")
         it = self.ev(g.iter, st)
         if isinstance(it, DictItems) and it.mode == "items":
             return self.dict_comp_symbolic(node, it.d, st)
